@@ -57,6 +57,84 @@ def gen(ctx, q):
     return L, plan
 
 
+def overwrite_scenario(ctx, q):
+    """header updates while the write position is NOT at the end of the file: write 100 frames, seek back to frame 10, write 20 frames, update;
+    the image must still describe all 100 frames and deliver what the finished file delivers"""
+    rng = vlib.Rng(ctx.seed * 15485867 + 11)
+    L, plan = [], []
+    # (VOC is left out: its terminator-byte defects -- recorded under crash:VOC:* and reopen:VOC:frame_count -- would only show up once more)
+    combos = [c for c in formats.writable(channels=(1, 2)) if formats.name(c[0]).split("/")[0] in HEADERED and formats.is_granular(c[0]) and not formats.name(c[0]).startswith("VOC/")]
+    if q:
+        combos = [c for i, c in enumerate(combos) if c[1] == 1 or i % 4 == 0]
+    for (f, ch) in combos:
+        name = formats.name(f)
+        sb = name.split("/")[1]
+        t = "f" if sb in ("FLOAT", "DOUBLE") else "s"
+        for mode in ("auto", "now"):
+            L.append("open 0 0 w %x %d 8000" % (f, ch))
+            if mode == "auto":
+                L.append("cmd 0 SET_UPDATE_HEADER_AUTO 1")
+            L.append("w 0 %s f 100 %s" % (t, " ".join(gens.values(rng, t, 40, sb if sb in ("ULAW", "ALAW") else None))))
+            L.append("seek 0 10 0")
+            plan.append((len(L), "seek", name))
+            L.append("w 0 %s f 20 %s" % (t, " ".join(gens.values(rng, t, 40, sb if sb in ("ULAW", "ALAW") else None))))
+            if mode == "now":
+                L.append("cmd 0 UPDATE_HEADER_NOW 0")
+            L.append("store 1 copy 0")
+            L.append("open 1 1 r 0 0 0")
+            plan.append((len(L), "image", dict(name=name, f=f, ch=ch, mode=mode)))
+            L.append("r 1 %s f 5000" % t)
+            plan.append((len(L), "image_read", None))
+            L.append("close 1")
+            L.append("close 0")
+            L.append("open 1 0 r 0 0 0")
+            plan.append((len(L), "final", None))
+            L.append("r 1 %s f 5000" % t)
+            plan.append((len(L), "final_read", None))
+            L.append("close 1")
+    script = "\n".join(L) + "\n"
+    rc, hl, err = sdrive.run_harness(script, "C11_overwrite", timeout=900)
+    if rc != 0:
+        ctx.violation("crash:sanitizer", "overwrite scenario ended rc=%d: %s" % (rc, err.strip().split("\n")[0][:300]), script[-4000:] + "\n" + err[-4000:])
+        return 0
+    seen, n = set(), 0
+    cur, seek_ok, img = None, False, None
+    for (ln, kind, a) in plan:
+        if ln not in hl:
+            continue
+        d = hl[ln][1]
+        if kind == "seek":
+            seek_ok = d.get("ret") == "10"
+        elif kind == "image":
+            cur, img = a, None
+            if not seek_ok:
+                cur = None          # the container cannot seek while writing: the scenario does not exist for it
+                continue
+            n += 1
+            fam = formats.family(a["f"])
+            key = None
+            if d.get("ok") != "1":
+                key, msg = "%s:overwrite_image_unreadable" % fam, hl[ln][2][:160]
+            else:
+                F = int(d["frames"])
+                if not (100 <= F <= 101):
+                    key, msg = "%s:overwrite_image_frames" % fam.split("/")[0], "100 frames written, then frames 10..29 rewritten (%s header update): the image's header says %d frames" % (a["mode"], F)
+            if key and key not in seen:
+                seen.add(key)
+                ctx.violation("crash:" + key, "%s ch=%d: %s" % (a["name"], a["ch"], msg), "script:\n" + sdrive.section_prefix(script, ln)[-4000:] + "\n\ntranscript:\n" + hl[ln][2][:600])
+        elif kind == "image_read" and cur:
+            img = (d.get("ret"), d.get("dig"))
+        elif kind == "final_read" and cur and img:
+            fin = (d.get("ret"), d.get("dig"))
+            fam = formats.family(cur["f"])
+            key = "%s:overwrite_image_differs_from_final_file" % fam.split("/")[0]
+            if img[0] in ("100", "101") and fin != img and key not in seen:
+                seen.add(key)
+                ctx.violation("crash:" + key, "%s ch=%d (%s): the image delivers %s, the finished file %s although nothing was written in between" % (cur["name"], cur["ch"], cur["mode"], img, fin),
+                              "script:\n" + sdrive.section_prefix(script, ln)[-4000:])
+    return n
+
+
 def run(ctx):
     q = ctx.tier == "quick"
     vlib.proof_step(ctx)
@@ -159,5 +237,9 @@ def run(ctx):
             "SFC_SET_UPDATE_HEADER_AUTO or an explicit SFC_UPDATE_HEADER_NOW after each; after every one the stored bytes are copied and opened by a second handle: "
             "same parameters, frame count <= frames written (== for sample-granular encodings, whole blocks otherwise), reading delivers exactly that count, and those "
             "frames equal the first frames of the finished file")
+    n2 = overwrite_scenario(ctx, q)
+    ctx.tie("overwrite_update_oracle", "oracle", n2, n2,
+            "every seekable sample-granular container x encoding: 100 frames written, frames 10..29 rewritten after a seek, header updated (auto / explicit) while the write "
+            "position is in the middle of the file: the image still announces all 100 frames and delivers exactly what the finished file delivers")
     ctx.add_samples([hl[ln][2][:200] for (ln, k, a) in plan if k == "snap_open" and ln in hl][:5])
     ctx.trusted += ["Stream.v (block writers abstract)", "header writers / parsers are decided by the crash-image oracle", "block rounding of lossy codecs: the image may hold fewer frames than written, by less than one block"]
